@@ -59,7 +59,7 @@ def catalogue(s):
             D.append({"k": "headpat", "n": nn})
             D.append({"k": "as_tank", "n": nn})
     for k in ("pdd", "mult2", "mult05", "pstart1h", "pstart90m", "hyd30", "hyd15all", "pat30", "pat2h", "rep2h",
-              "piecewise", "clock3h"):
+              "piecewise", "clock3h", "revorder"):
         D.append({"k": k})
     return D
 
@@ -187,6 +187,9 @@ def apply(s, d):
         s["hw"] = "piecewise"
     elif k == "clock3h":
         o["clock"] = 3 * 3600
+    elif k == "revorder":
+        # same network, elements registered in the opposite order (ids, matrix rows and result columns are positional)
+        s["nodes"].reverse(); s["links"].reverse()
     else:
         raise KeyError(k)
     return s
